@@ -143,6 +143,21 @@ def shard(shard, nshards, rng, tier, extra):
         cases.append({'s': s, 'nw': nw, 'nf': nf, 'r': rng.choice(RMODES), 'o': rng.choice(OMODES), 'carrier': carrier, 'route': rng.choice(S.ROUTES),
                       'vals': vals, 'setmode': rng.choice(['slice', 'each', 'fancy'])})
     check_cases(cases, res, 'D:far-out-of-range')
+    # ---- (D2) beyond the stated |v*2^n_frac| < 2^62: floats whose scaled value lies in [2^62, 2^70) under WRAP (the period law of C03
+    # speaks of any multiple of the modulus); compared with the Spec only (the model's int64 cast is undefined there)
+    cases = []
+    for _ in range((300 if tier == 'quick' else 8000) // nshards):
+        s, nw, nf = S.random_format(rng)
+        if nf < 10: continue
+        vals = []
+        for _k in range(rng.choice([1, 1, 2])):
+            e = rng.randint(62, 69); m = rng.getrandbits(30) | (1 << 29)
+            v = Fraction(m) * Fraction(2) ** (e - 29 - nf) * rng.choice([1, -1])
+            if abs(v) < 2 ** 53 and S.is_double(v): vals.append(float(v))
+        if not vals: continue
+        cases.append({'s': s, 'nw': nw, 'nf': nf, 'r': rng.choice(RMODES), 'o': 'wrap', 'carrier': rng.choice(['pyfloat', 'arr:float64', 'list']) if len(vals) == 1 else rng.choice(['arr:float64', 'list']),
+                      'route': rng.choice(S.ROUTES[:3]), 'vals': vals, 'setmode': 'each'})
+    check_cases(cases, res, 'D2:wrap-beyond-2^62', huge=True, keep_array=True)
     # ---- (E) float arrays mixing a huge element (>= 2^64 in magnitude) with fractional ones, under saturate, n_frac >= 0
     cases = []
     for _ in range((400 if tier == 'quick' else 8000) // nshards):
